@@ -337,7 +337,11 @@ func (rpc *RPC) LogValue() slog.Value {
 // further (e.g. Message data is bigger than the RPC limit), then it will be
 // returned as an oversized RPC. The caller should filter out oversized RPCs.
 func (rpc *RPC) split(limit int) iter.Seq[RPC] {
-	return func(yield func(RPC) bool) {
+	return func(yieldRPC func(RPC) bool) {
+		// never produce an empty RPC: the fragment in front of an element that
+		// cannot fit by itself is empty when nothing has been accumulated yet
+		yield := func(r RPC) bool { return r.Size() == 0 || yieldRPC(r) }
+
 		nextRPC := RPC{from: rpc.from}
 
 		{
